@@ -271,6 +271,24 @@ def corpus():
         # clients that come now get numbers beyond 1024; they are served like anybody else, hostile ones are contained
         out.append(case_dict(kind, "tcp", False, 3, ["c1:g", "p1", "c2:g", "r2:" + frame(b"\xff\xfe\xfd").hex(), "p1", "l1",
                                                      "c3:g", "i3:t", "p1", "u1:0", "a3", "c4:g", "p4", "p1"], opts=["hifd"]))
+    nexc = len(servers.BASE_EXC_NAMES)
+    for kind in KINDS:
+        # two small writes: an unsolicited REPLY carrying a by-reference object of an unknown class + the pre-sent EXCEPTION
+        # reply (SystemExit, KeyboardInterrupt, GeneratorExit, BaseException) to the INSPECT the server then makes: a
+        # BaseException out of serve() - more such clients than a pool has workers, some leaving, one repeating it
+        toks = ["c1:g", "p1"]
+        for i in range(nexc + 1):
+            k = i + 2
+            toks += ["c%d:g" % k, "y%d:%d" % (k, i)] + (["a%d" % k] if i % 2 else []) + ["p1"]
+        toks += ["c20:g", "y20:0", "c21:g", "p21", "u1:0", "p1"]
+        out.append(case_dict(kind, "tcp", False, 2, toks))
+        # a service whose on_connect asks the peer for its root (what ClassicService does; on the pool that is the accept
+        # thread): well-behaved clients answer, hostile ones answer with an exception reply naming SystemExit & co.
+        toks = ["c1:g", "p1"]
+        for i in range(nexc):
+            toks += ["c%d:e" % (i + 2), "p1"]
+        toks += ["c10:g", "p10", "l1", "c11:e", "c12:e", "p10", "p1"]
+        out.append(case_dict(kind, "unix" if kind == "forking" else "tcp", True, 2, toks, opts=["occ"]))
     pf = protocol_frames()
     for kind in KINDS:
         # every one of the protocol's own messages sent by a client that has no business sending it, each on a connection of
@@ -386,6 +404,12 @@ def gen_case(r, corp, kind=None):
             else:
                 hostile_open.append(nextk)
             nextk += 1
+        elif x >= 94:                                                 # REPLY with a remote reference + pre-sent BaseException reply
+            k = nextk
+            nextk += 1
+            toks.append("c%d:g" % k)
+            hostile_open.append(k)
+            toks.append("y%d:%d" % (k, r.below(len(servers.BASE_EXC_NAMES))))
         elif x < 44 and x >= 32:                                      # names builtin / foreign types, answers INSPECT with junk
             k = nextk
             nextk += 1
@@ -494,7 +518,7 @@ def compare_case(case, ceiling=servers.CEILING):
 
 
 def hostile_sessions(case):
-    return sum(1 for t in case["ops"] if t[0] in "rx" or (t[0] == "c" and t[-2:] in (":b", ":s", ":r")))
+    return sum(1 for t in case["ops"] if t[0] in "rxy" or (t[0] == "c" and t[-2:] in (":b", ":s", ":r", ":e")))
 
 
 # ---------------------------------------------------------------------------------------------- correspondence
@@ -623,6 +647,7 @@ def oracle_case(case, known=(), ceiling=servers.CEILING):
 
             where = "after op %d (%s): " % (i, tok[:60])
             if t == "c" and tok.split(":")[1] != "g" and not (gated and tok.endswith(":s")):
+                # (incl. `e`: good credentials, then an exception reply to the service's on_connect request)
                 hostile.add(k)
                 if tok.endswith(":s") and case["auth"]:
                     stalled.add(k)
@@ -634,7 +659,7 @@ def oracle_case(case, known=(), ceiling=servers.CEILING):
                 stalled.discard(k)
                 if tok.endswith(":g"):
                     hostile.discard(k)        # slow, but well-behaved from here on
-            if t == "x":
+            if t in "xy":
                 hostile.add(k)
             if t in "ri":
                 hostile.add(k)
@@ -659,7 +684,7 @@ def oracle_case(case, known=(), ceiling=servers.CEILING):
                                                  if w == "d" and peer == cl.peer) >= 1, ceiling)
             if t == "h":
                 in_hook.discard(k)
-            if (t in "azh" or (t == "c" and tok[-2:] in (":r", ":b"))) and not in_hook:
+            if (t in "azh" or (t == "c" and tok[-2:] in (":r", ":b", ":e"))) and not in_hook:
                 # a client that has gone (or was turned away) keeps no tracked socket and no descriptor of the server:
                 # otherwise every such client costs the server a descriptor for good, and it dies of EMFILE in the end
                 starving = kind == "pool" and (len(holding | in_hook) >= case["nb"] or stalled)
@@ -675,7 +700,7 @@ def oracle_case(case, known=(), ceiling=servers.CEILING):
                         return (sn["c"] <= n and sn["f"] <= n and sn["ch"] <= n and
                                 sn["fds"] <= sn["L"] + (0 if kind == "forking" else n))
                     cl = sess.clients.get(k)
-                    if t == "c" and tok.endswith(":b") and cl is not None:
+                    if t == "c" and tok[-2:] in (":b", ":e") and cl is not None:
                         servers.wait_for(cl.sees_eof, ceiling)
                     if servers.wait_for(clean, ceiling) is None:
                         sn = sess.backend.snapshot()
@@ -840,14 +865,14 @@ def amplify(case, known):
     """a script after which a pool has lost a worker, made into one after which it serves nobody: the hostile sessions
     repeated by nbThreads fresh clients, then a well-behaved newcomer"""
     ops = list(case["ops"])
-    hostile = sorted(set(int(t[1:].split(":")[0]) for t in ops if t[0] in "xri"))
+    hostile = sorted(set(int(t[1:].split(":")[0]) for t in ops if t[0] in "xriy"))
     if not hostile:
         return None
     out, base = list(ops), 100
     for n in range(case["nb"]):
         for k in hostile:
             for t in ops:
-                if t[0] in "cxri" and int(t[1:].split(":")[0]) == k and t.count(":") < 3:
+                if t[0] in "cxriy" and int(t[1:].split(":")[0]) == k and t.count(":") < 3:
                     rest = t[1:].split(":", 1)
                     out.append(t[0] + str(base + k) + (":" + rest[1] if len(rest) > 1 else ""))
         base += 100
